@@ -61,7 +61,12 @@ fn try_new_from_perf<'a>(a: PerformanceAttributes) -> Option<Performance<'a>> {
 }
 
 fn case(t: &mut Tape, info: &mut CaseInfo) -> Result<(), String> {
-    let c = gen_map_case(t, info, &MapProfile::small(ALL_MODES, 50), &DiffProfile::realistic().passed(0), false);
+    // a third of the cases draws settings from the wide domain (overrides up to +-20 and beyond, clock
+    // rates 0.01..100): the property quantifies over all Difficulty settings
+    let wide = t.chance(1, 3);
+    let dprof = if wide { DiffProfile::wide() } else { DiffProfile::realistic() }.passed(0);
+    let c = gen_map_case(t, info, &MapProfile::small(ALL_MODES, if wide { 25 } else { 50 }), &dprof, false);
+    info.label_if(wide, "wide-settings");
     let score = gen_score_spec(t, c.spec.objects.len() as u32);
     if info.want_sample {
         info.sample = Some(json!({"map": c.spec.sample(), "target": mode_name(c.target), "difficulty": c.dspec.describe(), "score": score.describe()}));
@@ -76,6 +81,10 @@ fn case(t: &mut Tape, info: &mut CaseInfo) -> Result<(), String> {
     let entries: Vec<(&str, Performance<'_>)> = vec![
         ("Performance::new(&explicit_map)", Performance::new(&explicit)),
         ("Performance::new(explicit_map)", Performance::new(explicit.clone())),
+        (
+            "Performance::new(source_map by value).mods(..).mode_or_ignore(target)",
+            Performance::new(c.map.clone()).mods(c.dspec.mods.build(c.target)).mode_or_ignore(c.target),
+        ),
         ("explicit_map.performance()", explicit.performance()),
         ("Performance::new(DifficultyAttributes)", Performance::new(a.clone())),
         ("Performance::from(DifficultyAttributes)", Performance::from(a.clone())),
